@@ -35,6 +35,11 @@ EXPLANATION = (
   ' (TAB-region-key / TAB-reset) regions are shared only between blocks with equal vertical position, line count and alignment; at a new row the styles are reset in teletext subtitles only (in open subtitles they persist);'
   ' (FIN-parse) a parsed SMPTE label counts at the rate it was given (`:`), or at the matching drop-frame rate (`;`): see C12;'
   ' (FIN-dropcount) the number of labels dropped per minute at each 1001-denominator rate keeps labels aligned with real time (two known findings at 24000/1001, the rate of STL23.01): see C12;'
+  ' (LINT-l) no tuple / list / set display of the anchored modules lists the same computed component twice and no dict display repeats a key (a key or fingerprint built that way cannot tell apart what the missing component would have);'
+  ' (STATE-share) no assignment stores a container field of one object (a field the package updates in place) into a field of another object without copying it, so an in-place update of one object never changes another;'
+  " (ITEM-source) an object built once per item of an inner loop is filled only with values that derive from that item or do not vary with the loops, never with a value of the enclosing container standing where the item's own belongs;"
+  ' (FIND-key) every parameter of _get_region_from_model that shapes a newly created region is compared by the search for a reusable one, so a region is reused only when origin, extent and displayAlign all agree;'
+  ' (FIN-resume) the registered codec error handler resumes decoding exactly at the end of the undecodable range, so an unassigned byte costs one replacement character and nothing else;'
 )
 RULE_TEXT = "per table entry / byte value (aggregated per classifier) / struct format / call site"
 UNDECIDED = ["region geometry from VP/JC and row counts", "cumulative-set accumulation behaviour", "the text-field state machine as a whole (span boundaries, space insertion)",
@@ -416,6 +421,65 @@ def check_iso6937_dispatch(ctx):
             "ISO 6937 decoding: " + "; ".join(wrong[:4]) + " - composed characters (e.g. caron + letter) are decoded wrongly")
 
 
+def check_codec_error_handlers(ctx):
+  """FIN-resume: a function registered with codecs.register_error returns (replacement, position); decoding
+  resumes at that position, so it must be the end of the undecodable range (`error.end`, exclusive) - one more
+  swallows the next character, one less decodes the bad byte again (endlessly).  Evaluated for a one-byte and a
+  two-byte range."""
+  from ..consteval import FuncEval, NotConst as _NC, Raised as _R
+  ix = ctx.ix
+  n = 0
+  for mname in ("ttconv.stl.tf", "ttconv.stl.iso6937.codec", "ttconv.stl.datafile"):
+    m = ix.modules.get(mname)
+    if m is None:
+      continue
+    for c in ast.walk(m.tree):
+      if not (isinstance(c, ast.Call) and unparse(c.func).endswith("register_error") and len(c.args) == 2):
+        continue
+      h = ix.resolve(m, c.args[1])
+      from ..core import FuncInfo as _FI
+      if not isinstance(h, _FI) or not h.params:
+        raise AnalysisError(f"{mname}: the handler registered by `{short(c)}` is not a function of the package")
+      ctx.unit(m)
+      n += 1
+      p = h.params[0]
+      got = []
+      # ranges the package's own decoders report: UnicodeDecodeError(enc, buffer, i, i + w, ..) is raised for any i < len(buffer),
+      # so the widest w also occurs at the last byte (the range then ends past the buffer)
+      widths = set()
+      for m2 in ix.modules.values():
+        if not m2.name.startswith("ttconv.stl"):
+          continue
+        for r_ in ast.walk(m2.tree):
+          if isinstance(r_, ast.Call) and unparse(r_.func).endswith("UnicodeDecodeError") and len(r_.args) >= 4:
+            try:
+              ce_ = ConstEval(ix, symbolic_ok=False)
+              names_ = {x.id for a_ in r_.args[2:4] for x in ast.walk(a_) if isinstance(x, ast.Name)}
+              env_ = {k: 0 for k in names_}
+              widths.add(ce_.ev(m2, r_.args[3], None, env_) - ce_.ev(m2, r_.args[2], None, env_))
+            except (_NC, TypeError):
+              raise AnalysisError(f"{m2.name}: the range reported by `{short(r_, 70)}` leaves the evaluable subset")
+      scenarios = [(3, 4, 8), (3, 5, 8)] + [(7, 7 + w, 8) for w in sorted(widths) if w > 1]
+      for (start, end, size) in scenarios:
+        env = {f"{p}.start": start, f"{p}.end": end, f"{p}.object": bytes(range(0xC1, 0xC1 + size)), p: None}
+        try:
+          v = FuncEval(ix).call(h, env)
+        except _R:
+          v = "raises"
+        except IndexError:
+          v = "IndexError"
+        except _NC as e:
+          raise AnalysisError(f"{h.qualname}: leaves the evaluable subset ({e})")
+        got.append((start, end, v))
+      ok = all(isinstance(v, tuple) and len(v) == 2 and isinstance(v[0], str) and v[1] == end for (_s, end, v) in got)
+      ctx.check(ok, "FIN-resume", f"{h.qualname}|decoding resumes at the end of the undecodable range", ctx.where(h.module, h.node),
+                f"returns (replacement, error.end) for the ranges {[(a, b) for (a, b, _v) in got]} of an 8-byte buffer",
+                f"the codec error handler registered as {unparse(c.args[0])} gives {[v for (_a, _b, v) in got]} for the undecodable ranges {[(a, b) for (a, b, _v) in got]} of an 8-byte buffer "
+                "(the last range is what the ISO 6937 decoder reports for a diacritic at the end of a buffer): decoding must resume at error.end and the handler must not fail; "
+                "resuming later swallows the valid character that follows, an IndexError aborts the whole file")
+  ctx.floor("FIN-resume", "registered codec error handlers", n, 1)
+
+
 def check_newline_reset(ctx):
   """TAB-reset: at a new row, the styles are reset only in teletext subtitles (EBU Tech 3264: in open subtitles colour and emphasis persist across rows)."""
   ix = ctx.ix
@@ -464,6 +528,9 @@ def run(ctx):
   shape.check_flag_reset(ctx, ptb, "is_in_extension", {"tti.EBN != 255"}, "the extension-block accumulation state of a finished subtitle",
                          final_only=_is_model_write, final_only_what="extension blocks (EBN != FFh) only extend the text field; the model is written once, for the final block")
   shape.check_region_key(ctx, ix.func("ttconv.stl.datafile:_get_region_from_model"))
+  nfk = shape.check_find_or_create(ctx, [ix.func("ttconv.stl.datafile:_get_region_from_model")])
+  if nfk < 5:
+    raise AnalysisError(f"_get_region_from_model: the search-then-create shape was recognised for {nfk} parameters only (expected the 5 that shape a region)")
   fs = common.funcs(ctx, ["ttconv.stl.datafile", "ttconv.stl.reader", "ttconv.stl.tf"])
   n = exa.check_exactness(ctx, fs, rule="EXA", exempt=common.EXA_EXEMPT, trunc_scope=common.time_trunc_scope(ctx))
   ctx.floor("EXA", "model time sinks in the STL reader", n, 2)
@@ -481,6 +548,7 @@ def run(ctx):
   check_tcp_fields(ctx)
   check_iso6937_dispatch(ctx)
   check_newline_reset(ctx)
+  check_codec_error_handlers(ctx)
   common.check_item_handlers(ctx, ["ttconv.stl.reader", "ttconv.stl.datafile", "ttconv.stl.tf", "ttconv.stl.iso6937"])
   from . import c12 as _c12
   _c12.check_parse_rate(ctx)
